@@ -218,4 +218,30 @@ theorem C12_hessian_U_quadratic_form {n : ℕ} (b : Fin n → ℝ)
     rw [this]
     ring
 
+
+/-! ### (4) the scaled finite-difference Hessian (repair 3762ba3) -/
+
+/-- **C12, Hessian in units of the standard deviations.** The code differences `y ↦ g(x* + σ ⊙ y)` at
+`y = 0` and divides entry `(j,k)` by `σ_j σ_k`.  For the 2-jet of `g` the second directional derivative
+of that scaled function in the direction `w` is `∑∑ H_jk (σ_j w_j)(σ_k w_k)`, i.e. its Hessian is
+`diag(σ) H diag(σ)`, so the division recovers `H` exactly. -/
+theorem C12_scaled_hessian {n : ℕ} (b : Fin n → ℝ) (H : Matrix (Fin n) (Fin n) ℝ)
+    (x σ w : Fin n → ℝ) :
+    HasDerivAt
+      (fun s => ∑ k, quadGgrad b H (fun j => x j + σ j * (0 + s * w j)) k * (σ k * w k))
+      (∑ j, ∑ k, H j k * (σ j * w j) * (σ k * w k)) 0 := by
+  have ht : ∀ k y, HasDerivAt (fun y : ℝ => x k + σ k * y) (σ k) y := by
+    intro k y
+    simpa using ((hasDerivAt_id y).const_mul (σ k)).const_add (x k)
+  have ht' : ∀ k y, HasDerivAt (fun _ : ℝ => σ k) 0 y := fun k y => hasDerivAt_const y (σ k)
+  have h := C12_second_directional_derivative b H (fun k y => x k + σ k * y) (fun k _ => σ k)
+    (fun _ _ => 0) ht ht' (fun _ => 0) w
+  simpa using h
+
+/-- entry form: with `w` a coordinate direction scaled back, the `(j,k)` entry of the scaled Hessian
+divided by `σ_j σ_k` is `H j k` (for non-zero scales) -/
+theorem C12_scaled_hessian_entry (H : ℝ) (σj σk : ℝ) (hj : σj ≠ 0) (hk : σk ≠ 0) :
+    (σj * H * σk) / (σj * σk) = H := by
+  field_simp
+
 end FF
